@@ -715,7 +715,7 @@ def make_scenario(rng, sid, sampler, pruner, nobj, n_trials, exact=False):
     sc = {"id": sid, "sampler": sampler, "pruner": pruner, "seed": rng.randrange(1, 10**6), "prog": prog,
           "study_name": f"study-{sid}"}
     if pruner == "threshold":
-        sc["thr"] = [rng.choice([-3.0, -1.0, 0.25]), rng.choice([1.5, 2.75, 6.0])]
+        sc["thr"] = rng.choice([[-3.0, 1.5], [-1.0, 2.75], [0.25, 6.0], [-3.0, 0.0], [0.0, 2.75], [-1.0, 0.0], [0.0, 6.0]])
     if pruner == "wilcoxon":
         # instance-style program: 6-10 instances (= steps, the same ids in every trial), some of them "easy" (high base
         # level, small weights) and some decisive (large weights); objective = median / max / min / last / mean of the
